@@ -357,6 +357,17 @@ class Model(object):
         self.py_only()
         return self.expect(None)
 
+    # ---- struct with fixed-size array members (Python): a longer list is cut, a shorter one fills a prefix
+    def op_rec_sum(self, n, t, _t):
+        self.py_only()
+        count = [0, 0, 0]
+        for i, v in enumerate([1 + i for i in range(n)][:3]):
+            count[i] = v
+        w = [0.0, 0.0]
+        for i, v in enumerate([0.5 * (1 + i) for i in range(n)][:2]):
+            w[i] = v
+        return self.expect((count[0] + 10 * count[1] + 100 * count[2] + 1000 * t + int(2 * (w[0] + w[1])) * 10000 + 7 * 1000000,))
+
     def op_ar_total(self, s, _b, _t):
         return self.expect((self.arr_total(self.arr_struct(s)),))
 
@@ -979,6 +990,8 @@ def gen_op(rng, model, enabled, uniq):
         return [name, s, rng.randrange(12)]
     if name in ("char_arr_two", "bad_char_arr_two"):
         return [name, rng.choice([1, 2, 3, 6]), rng.choice([1, 2, 4, 9])]
+    if name == "rec_sum":
+        return [name, rng.choice([0, 1, 2, 3, 4, 7, 12]), rng.randrange(9)]
     if name == "arr_in_out":
         return [name, rng.choice([0, 1, 5, 16]), rng.choice([0, 1, 2, 7])]
     if name == "bad_arr_in_out":
@@ -1026,11 +1039,12 @@ LEAKABLE = ["item_value", "item_label", "use_item", "sum_items", "item_combine",
             "hi_get", "hd_get", "arr_weights", "bad_arr_weights", "char_arr_none", "bad_char_arr",
             "pt_sum", "pt_out", "pt_scale", "pt_tmp", "ar_tmp", "ar_total", "ar_get_vals", "ar_get_name", "ar_set_vals",
             "ar_set_name", "ar_bad_name", "ar_bad_vals", "char_arr_two", "bad_char_arr_two", "arr_in_out", "bad_arr_in_out",
-            "item_add_all", "bad_item_add_all", "arr_sum_d", "bad_arr_sum_d", "bag_total", "bag_tmp", "bad_bag_new"]
+            "item_add_all", "bad_item_add_all", "arr_sum_d", "bad_arr_sum_d", "bag_total", "bag_tmp", "bad_bag_new",
+            "rec_sum"]
 PY_ONLY = ["box_delete", "bad_vec_sum", "bad_arg", "nomem", "bad_arr_sum", "bad_arr_weights", "char_arr_none", "bad_char_arr",
            "ar_new", "ar_set_vals", "ar_set_name", "ar_total", "ar_get_vals", "ar_get_name", "ar_drop", "ar_tmp", "pt_tmp",
            "ar_bad_name", "ar_bad_vals", "char_arr_two", "bad_char_arr_two", "arr_in_out", "bad_arr_in_out",
-           "bad_item_add_all", "bad_arr_sum_d", "bag_tmp", "bad_bag_new"] + ["leak_" + n for n in LEAKABLE]
+           "bad_item_add_all", "bad_arr_sum_d", "bag_tmp", "bad_bag_new", "rec_sum"] + ["leak_" + n for n in LEAKABLE]
 # char_inout: the Python wrapper hands the str object's own UTF-8 buffer to the library, which
 # upper-cases it in place and thereby corrupts interned strings of the interpreter (a C03 defect;
 # it would make later *values* wrong, so the op is not generated for Python)
@@ -1077,6 +1091,7 @@ for _n in ("item_default", "item_val", "item_delete", "item_value", "item_set", 
     OP_NEEDS[_n] = _ITEM
 for _n in ("bag_new", "bag_total", "bag_delete", "bag_tmp", "bad_bag_new"):
     OP_NEEDS[_n] = ("Bag",)
+OP_NEEDS["rec_sum"] = ("Rec", "recSum")
 OP_NEEDS["item_add_all"] = OP_NEEDS["bad_item_add_all"] = OP_NEEDS["item_assoc"] = ("Item",)
 OP_NEEDS["arr_sum_d"] = OP_NEEDS["bad_arr_sum_d"] = ("arrSumD",)
 OP_NEEDS["char_arr_two"] = OP_NEEDS["bad_char_arr_two"] = ("charArrTwo",)
